@@ -78,21 +78,44 @@ class _UuidShim:
         return _uuid.UUID(int=c.k)
 
 
+HIGH_WATER = 16 * 1024     # write-buffer high-water mark of the in-memory transport
+CALL_KINDS = {"call": None, "bigcall": 70000, "hugecall": 300000}   # kind -> extra request payload
+
+
 class FakeWriter:
+    """in-memory StreamWriter with asyncio's flow control: while the peer is congested written
+    bytes stay buffered and `drain()` suspends as soon as more than HIGH_WATER is buffered;
+    `uncongest()` lets everything through and wakes the suspended senders"""
+
     def __init__(self, h):
         self.h = h
         self.closing = False
         self.buf = bytearray()
+        self.buffered = 0
+        self.waiters = []
 
     def write(self, data):
+        data = bytes(data)
         self.buf += data
-        self.h.on_write(bytes(data))
+        if self.h.congested:
+            self.buffered += len(data)
+        self.h.on_write(data)
 
     async def drain(self):
+        if not self.h.wr_broken and self.h.congested and self.buffered > HIGH_WATER:
+            fut = asyncio.Future(loop=self.h.loop)
+            self.waiters.append(fut)
+            await fut
         if self.h.wr_broken:
             self.h.on_drain(False)
             raise ConnectionResetError("Connection lost")
         self.h.on_drain(True)
+
+    def wake(self):
+        ws, self.waiters = self.waiters, []
+        for f in ws:
+            if not f.done():
+                f.set_result(None)
 
     def is_closing(self):
         return self.closing
@@ -209,8 +232,10 @@ class Caller:
         self.cf = None
         self.fut = None
         self.submitted = False
+        self.payload = CALL_KINDS.get(kind)
         self.hphase = "idle"        # harness view: idle checked registered submitted sent waiting done
         self.drain_failed = False
+        self.sent_ok = False
         self.must_ok = None         # body the call must return (answer consumed while it was waiting)
         self.answers = []           # bodies of complete frames fed with its id, in order
 
@@ -230,6 +255,11 @@ class Harness:
         self.checkpoints = []       # (index into labels, real digest)
         self.notes = []             # harness-level anomalies (tie problems, not property failures)
         self.wr_broken = False
+        self.congested = False
+        self.creating_for = None
+        self.task_owner = {}        # asyncio task of a call's coroutine -> Caller
+        self.extra_writes = 0
+        self.listener_writes = []
         self.race = {}
         self.race_used = set()
         self.values = list(values)
@@ -294,6 +324,12 @@ class Harness:
                     return f
                 return super().create_future()
 
+            def create_task(self, coro, **kw):
+                t = super().create_task(coro, **kw)
+                if h.creating_for is not None:
+                    h.task_owner[t] = h.creating_for
+                return t
+
             def call_soon_threadsafe(self, callback, *args, context=None):
                 c = getattr(h.tls, "caller", None)
                 if c is not None and "C" not in c.seen:
@@ -309,7 +345,14 @@ class Harness:
                     c.cf = cf
                     if cf is not None:
                         cf.add_done_callback(lambda f, c=c: h.on_cf_done(c))
-                    r = super().call_soon_threadsafe(callback, *args, context=context)
+
+                    def owned(*a, _cb=callback, _c=c):
+                        h.creating_for = _c
+                        try:
+                            return _cb(*a)
+                        finally:
+                            h.creating_for = None
+                    r = super().call_soon_threadsafe(owned, *args, context=context)
                     with h.cv:
                         c.submitted = True
                         h.cv.notify_all()
@@ -393,8 +436,8 @@ class Harness:
     def _caller_main(self, c):
         self.tls.caller = c
         try:
-            if c.kind == "call":
-                c.result = ("ok", self.nc.call(("req", c.k)))
+            if c.kind in CALL_KINDS:
+                c.result = ("ok", self.nc.call(self.request_of(c)))
             elif c.kind == "close":
                 self.nc.close()
                 c.result = ("ok", "closed") if "A" in c.seen else ("noop",)
@@ -409,6 +452,9 @@ class Harness:
             with self.cv:
                 c.finished = True
                 self.cv.notify_all()
+
+    def request_of(self, c):
+        return ("req", c.k) if c.payload is None else ("req", c.k, "q" * c.payload)
 
     def _wait(self, pred, where):
         with self.cv:
@@ -432,7 +478,7 @@ class Harness:
                     self.cv.notify_all()
                 self._wait(lambda: c.at == "B" or c.finished, f"caller {k} check")
             self.started_max = max(self.started_max, k + 1)
-            self.labels.append(f"check c={k} close={0 if c.kind == 'call' else 1}")
+            self.labels.append(f"check c={k} close={0 if c.kind in CALL_KINDS else 1}")
             c.hphase = "done" if c.finished else "checked"
             return True
         if c.at == "B":
@@ -511,31 +557,41 @@ class Harness:
         self._flush_recv()
         self.labels.append("recv")
 
-    def on_write(self, data):
-        self.last_write_k = None
+    def _task_owner(self):
         try:
-            if asyncio.current_task(self.loop) is self.run_task:
-                return          # the listener answering a push / echoing a close request
+            task = asyncio.current_task(self.loop)
         except RuntimeError:
-            pass
-        if len(data) >= 20:
-            fid = int.from_bytes(data[:16], "big")
-            if fid < len(self.callers) and self.callers[fid].hphase == "submitted":
-                c = self.callers[fid]
-                c.hphase = "sent"
-                self.last_write_k = fid
-                self.labels.append(f"send c={fid}")
+            return None, None
+        return task, self.task_owner.get(task)
+
+    def on_write(self, data):
+        task, c = self._task_owner()
+        if task is self.run_task:
+            # the listener answering a push / echoing a close request: the model appends the
+            # reply in `served`
+            self.listener_writes.append(bytes(data))
+            self._flush_recv()
+            return
+        if c is None:
+            return
+        if c.hphase == "submitted":
+            c.hphase = "sent"
+            self.labels.append(f"send c={c.k}")
+        else:
+            # a second write of one call (a frame handed over in slices): the machine writes a
+            # frame in one step, so this label is refused and the tie is reported broken
+            self.extra_writes += 1
+            self.labels.append(f"send c={c.k}")
 
     def on_drain(self, ok):
-        k = self.last_write_k
-        self.last_write_k = None
-        if k is None:
+        task, c = self._task_owner()
+        if c is None:
             return
-        c = self.callers[k]
         if c.hphase == "sent":
-            self.labels.append(f"drain c={k}")
+            self.labels.append(f"drain c={c.k}")
             if ok:
                 c.hphase = "waiting"
+                c.sent_ok = True
             else:
                 c.hphase = "done"
                 c.drain_failed = True
@@ -648,6 +704,15 @@ class Harness:
             self.fault = True
             self.wr_broken = True
             self.labels.append("breakwriter")
+            self.writer.wake()          # connection_lost wakes the senders suspended in drain()
+            return True
+        if op == "CONGEST":             # the peer stops reading: written bytes pile up
+            self.congested = True
+            return True
+        if op == "UNCONGEST":
+            self.congested = False
+            self.writer.buffered = 0
+            self.writer.wake()
             return True
         raise ValueError(f"unknown schedule item {item!r}")
 
@@ -677,6 +742,9 @@ class Harness:
         callers are then still waiting on a live connection (the server never answered), the
         server goes away (EOF) - after that nobody may be left waiting"""
         self._complete()
+        if self.congested or self.writer.waiters:
+            self.apply(["UNCONGEST"])
+            self._complete()
         if self.listener_state() == "listening" and \
                 any(c.thread is not None and not c.finished for c in self.callers):
             self.apply(["EOF"])
@@ -723,7 +791,7 @@ class Harness:
         if r[0] == "abort":
             return "abort"
         if r[0] == "ok":
-            if c.kind != "call":
+            if c.kind not in CALL_KINDS:
                 return "ok:" + show_bytes(self.close_body)
             try:
                 return "ok:" + show_bytes(pickle.dumps(r[1]))
@@ -760,6 +828,62 @@ class Harness:
         return {"KlongIPCConnectionFailureException": "failed:lost",
                 "KGRemoteCloseConnectionException": "failed:closed"}.get(n, "failed:?" + n)
 
+    def wire_frames(self):
+        """the bytes the server sees, parsed as it parses them: [(id, body)], leftover bytes"""
+        b = bytes(self.writer.buf)
+        out = []
+        pos = 0
+        while len(b) - pos >= 20:
+            n = struct.unpack("!I", b[pos + 16:pos + 20])[0]
+            if len(b) - pos < 20 + n:
+                break
+            out.append((int.from_bytes(b[pos:pos + 16], "big"), b[pos + 20:pos + 20 + n]))
+            pos += 20 + n
+        return out, len(b) - pos
+
+    def wire_problems(self):
+        """the wire must parse as exactly the frames that were sent: every parsed frame with a
+        caller's id is that caller's whole request (or a listener reply), at most once, nothing
+        is left over, and every call whose send completed is on the wire"""
+        frames, rest = self.wire_frames()
+        probs = []
+        if rest and not self.wr_broken:
+            probs.append(f"{rest} trailing bytes do not form a frame")
+        seen = set()
+        echoes = {}
+        for fid, body in frames:
+            if fid < len(self.callers):
+                c = self.callers[fid]
+                want = self.close_body if c.kind not in CALL_KINDS else pickle.dumps(self.request_of(c))
+                if body == want:
+                    if fid in seen:
+                        # the listener's echo of a remote close request carries the same bytes
+                        raw = fid.to_bytes(16, "big") + struct.pack("!I", len(body)) + body
+                        echoes[fid] = echoes.get(fid, 0) + 1
+                        if echoes[fid] > self.listener_writes.count(raw):
+                            probs.append(f"request of call {fid} appears twice")
+                    seen.add(fid)
+                    continue
+            try:
+                v = pickle.loads(body)
+            except Exception:
+                probs.append(f"frame with id {fid}: body ({len(body)} bytes) does not unpickle")
+                continue
+            if not (isinstance(v, str) and v.startswith("echo:")) and body != self.close_body:
+                probs.append(f"frame with id {fid} is neither a request that was sent nor a listener reply")
+        if not self.wr_broken:
+            for c in self.callers:
+                if c.hphase in ("waiting",) or (c.finished and c.hphase == "done" and c.sent_ok):
+                    if c.k not in seen:
+                        probs.append(f"request of call {c.k} was sent but is not on the wire intact")
+        return probs
+
+    def _wire_digest(self):
+        if self.wr_broken:
+            return None
+        frames, rest = self.wire_frames()
+        return ",".join(str(f[0]) for f in frames) + ("+?" if rest else "")
+
     def digest(self):
         calls = []
         for c in self.callers[:self.started_max]:
@@ -768,10 +892,11 @@ class Harness:
         blocked = any(c.submitted and not c.finished for c in self.callers)
         return dict(lst=self.listener_state(), writer="0" if self.nc.writer is None else "1",
                     running="1" if self.nc.running else "0", pending=",".join(self.pending_keys()),
-                    calls=";".join(calls), blocked="1" if blocked else "0")
+                    calls=";".join(calls), blocked="1" if blocked else "0",
+                    wire=self._wire_digest())
 
     def checkpoint(self):
-        if self.loop_idle() and not self.recv_pending:
+        if self.loop_idle() and not self.recv_pending and not self.writer.waiters:
             self.checkpoints.append((len(self.labels), self.digest()))
 
     # ------------------------------------------------------------------ teardown
